@@ -9,7 +9,7 @@
    it is notified of its cancellation) and every script (registrations, cancellations, clock advances,
    NOHANG and sleeping iterations). *)
 From Coq Require Import ZArith List.
-From Tickit Require Import LoopDefs LoopSpec LoopAsIs LoopProofs LoopRefine LoopOrder LoopSpecEq LoopHeap LoopHeapProofs.
+From Tickit Require Import LoopDefs LoopSpec LoopAsIs LoopProofs LoopRefine LoopOrder LoopSpecEq LoopHeap LoopHeapProofs LoopChain LoopChainProofs LoopIo LoopIoProofs.
 Import ListNotations.
 Local Open Scope Z_scope.
 
@@ -99,6 +99,26 @@ Theorem C17_heap_safe : forall env uenv ops, h_run false env uenv ops = Some (ru
 Proof. exact heap_safe. Qed.
 Print Assumptions C17_heap_safe.
 
+(* tickit_unref from a callback.  The documentation lets the application manage the instance by
+   reference count and says nothing against dropping the last reference from a callback; the
+   library used to destroy the instance on the spot -- under the running tickit_evloop_invoke_timers,
+   which went on to read the freed instance (finding, corpus/C17/drop.case).  With
+   fixes/C18-tick-holds-reference.patch tickit_tick / tickit_run hold a reference of their own:
+   the instance dies when the tick returns, after everything the tick owed has run (runx, h_runx:
+   the script ends there).  The running queues are empty at that point, so for EVERY script, with
+   drops from any callback, from UNBIND notifications or between ticks, the heap model reads no
+   freed node, leaks none, and logs what the list model logs *)
+Theorem C17_heap_safe_drop : forall env uenv ops, h_runx false env uenv ops = Some (runx false env uenv ops, true).
+Proof. exact heap_safe_x. Qed.
+Print Assumptions C17_heap_safe_drop.
+
+(* for scripts in which nobody drops the instance runx is run (so C17_refines and the rest apply) *)
+Theorem C17_runx_is_run : forall bug env uenv,
+  (forall cb, Forall nodrop (env cb)) -> (forall cb, Forall nodrop (uenv cb)) ->
+  forall ops, Forall op_nodrop ops -> runx bug env uenv ops = run bug env uenv ops.
+Proof. exact runx_nodrop. Qed.
+Print Assumptions C17_runx_is_run.
+
 (* the heap model is not blind: with the seeded order of cancel_watch_in (unlink after the
    UNBIND notification, seeded-ports/C17-3.diff) it leaks on the script on which the seeded
    library leaks, with the log the seeded library prints *)
@@ -108,6 +128,53 @@ Theorem C17_heap_seeded_leaks :
     Some ([OEv (mkE 0 KLater EV_UNBIND 0 0 0); OPoll 0; OEv (mkE 1 KLater (EV_FIRE + EV_UNBIND) 1 0 0)], true).
 Proof. exact heap_seeded_leaks. Qed.
 Print Assumptions C17_heap_seeded_leaks.
+
+(* ---- the watch chains that are walked while callbacks cancel and register (signal watches,
+   process watches): the heap level -- nodes at addresses, a cursor that cancellation moves on, the
+   "registered before this walk" test -- reads no freed node, frees every node, and logs what the
+   snapshot specification (identities only) logs; for every script, every callback table *)
+Theorem C17_chain_safe : forall proc env ops,
+  exists f0, forall fuel, (f0 <= fuel)%nat -> h_crun proc env fuel ops = Some (l_run proc env ops, true).
+Proof. exact chain_safe. Qed.
+Print Assumptions C17_chain_safe.
+
+(* a process watch is invoked at most once, and every invocation reports a status that the
+   script (the waitpid oracle) supplied for that very child *)
+Theorem C17_process_once_status : forall env ops,
+  (forall id, (pfires id (l_run true env ops) <= 1)%nat) /\
+  (forall e, In (OEv e) (l_run true env ops) -> e_flags e = EV_FIRE -> In (e_id e, e_x e) (supplied ops)).
+Proof. exact process_once_status. Qed.
+Print Assumptions C17_process_once_status.
+
+(* and none is left waiting: after the walk of a SIGCHLD dispatch, a watch registered before it
+   that is still in the chain and has not been told of an exit has no status waiting for it *)
+Theorem C17_process_not_left_waiting : forall env ops arg,
+  let s := fold_left (l_op true env) ops lst0 in
+  let s' := l_op true env s (KWalk arg) in
+  forall w, In w (l_chain s') -> c_id w < l_next s -> c_ex w = false -> forall st, ~ In (c_key w, st) (l_exits s').
+Proof. exact process_not_left_waiting. Qed.
+Print Assumptions C17_process_not_left_waiting.
+
+Theorem C17_process_witness :
+  l_run true pw_env pw_ops = pw_log /\ h_crun true pw_env 50 pw_ops = Some (pw_log, true).
+Proof. exact process_witness. Qed.
+Print Assumptions C17_process_witness.
+
+(* ---- IO watches of the BUILT instance at the heap level: the chain t->iowatches and the default
+   event loop's slot arrays, with the terminal watch that tickit_build registers in cell 0 / slot 0;
+   dispatch of ready descriptors while callbacks cancel and register, destruction: no read of a
+   freed node, every node freed, the specification's log -- for every callback table and script *)
+Theorem C17_io_safe : forall env ops, hi_run env ops = Some (j_run env ops, true).
+Proof. exact io_safe. Qed.
+Print Assumptions C17_io_safe.
+
+Theorem C17_built_alone : forall env, hi_run env [] = Some ([], true).
+Proof. exact built_alone. Qed.
+Print Assumptions C17_built_alone.
+
+Theorem C17_io_witness : j_run iw_env iw_ops = iw_log /\ hi_run iw_env iw_ops = Some (iw_log, true).
+Proof. exact io_witness. Qed.
+Print Assumptions C17_io_witness.
 
 (* ---- the pinned code *)
 Theorem C17_refuted_use_after_free : a_run true w22a_env 100 w22a_ops = None.
